@@ -62,12 +62,30 @@ from beartype._util.cache.utilcachecall import callable_cached
 from beartype._util.utilobjattr import get_object_method_name_to_value
 from collections.abc import (
     Collection as CollectionABC,
+    Container as ContainerABC,
+    Iterable as IterableABC,
+    Reversible as ReversibleABC,
+    Sized as SizedABC,
 )
 from typing import (
     TYPE_CHECKING,
     Annotated,
     Optional,
 )
+
+# ....................{ PRIVATE ~ globals                  }....................
+_COLLECTIONS_ABC_STRUCTURAL = frozenset((
+    CollectionABC,
+    ContainerABC,
+    IterableABC,
+    ReversibleABC,
+    SizedABC,
+))
+'''
+Frozen set of all :mod:`collections.abc` protocols supporting **structural
+subtyping** (i.e., for which the :func:`isinstance` builtin is decided by
+testing the methods defined by the type of the passed object).
+'''
 
 # ....................{ INFERERS                           }....................
 def infer_hint_collections_abc(obj: object, **kwargs) -> Optional[object]:
@@ -136,6 +154,23 @@ def infer_hint_collections_abc(obj: object, **kwargs) -> Optional[object]:
     # Narrowest "collections.abc" protocol validating this type if at least one
     # such protocol validates this type *OR* "None" otherwise.
     hint_factory = _infer_hint_factory_collections_abc(obj_type)
+
+    # If this protocol supports structural subtyping (i.e., the isinstance()
+    # builtin decides whether an object satisfies this protocol by testing the
+    # methods defined by the type of that object) *AND* this object is
+    # nonetheless *NOT* an instance of this protocol, the attributes matched
+    # above are *NOT* defined by the type of this object but merely accessible
+    # through that type. This is the case for attributes defined by the
+    # metaclass of that type (e.g., the __contains__(), __iter__(), and
+    # __len__() dunder methods defined by the "enum.EnumType" metaclass, which
+    # apply to enumeration types rather than to their members). Inferring a
+    # protocol that this object fails to satisfy would yield a hint violated by
+    # this very object. In this case, ignore this protocol.
+    if (
+        hint_factory in _COLLECTIONS_ABC_STRUCTURAL and
+        not isinstance(obj, hint_factory)  # type: ignore[arg-type]
+    ):
+        hint_factory = None
 
     # If at least one "collections.abc" protocol validates this type...
     if hint_factory:
